@@ -9,6 +9,7 @@ type VerifStats struct {
 	Added      int   // task-table entries in state "added"
 	Fetching   int   // task-table entries in state "fetching"
 	Fetched    int   // task-table entries in state "fetched"
+	Failed     int   // task-table entries whose fetch was given up (retried by the next request)
 	Buffered   int   // fetched logs not yet handed to the store
 	InProgress int64 // workers holding a slot
 }
@@ -32,6 +33,8 @@ func (r *replicator) VerifStats() VerifStats {
 			st.Fetching++
 		case stateFetched:
 			st.Fetched++
+		case stateFailed:
+			st.Failed++
 		}
 	}
 
